@@ -1,4 +1,4 @@
-From PV Require Import Model.FiltersPinned.
+From PV Require Import Model.Filters.
 Require Extraction. Require ExtrOcamlBasic.
 Extraction Language OCaml.
 
